@@ -55,7 +55,7 @@ CLAIMS = {
         "and L <= 255*hashLen; output exactly L bytes; --bits b in 256..8192 gives exactly ceil(b/8) bytes and anything else is refused; the key file holds exactly the HKDF output; no "
         "group/other permission bit for every umask; O_EXCL never replaces an existing file unless --force unlinked it; subkeys are H(file||'1'), H(file||'2') of the ENTIRE file for every "
         "read chunking and EINTR pattern; files shorter than 32 bytes refused; identical files => identical subkeys, converse under a named no-collision hypothesis. Tie: real hkdf.c over a toy "
-        "MAC byte-exact against the model; real OpenSSL path, RFC vectors, create_key/create_subkeys in-process and the rebuilt mungekey binary judged by python hmac/hashlib and os.stat oracles.",
+        "MAC byte-exact against the model; real OpenSSL path, RFC vectors, create_key/create_subkeys in-process and the rebuilt mungekey binary judged by python hmac/hashlib and os.stat oracles. Props/C20Key.lean on _create_key_secret AS TRANSLATED from key.c each run: a failing entropy or salt read, or any failing step, yields -1 and HKDF never runs; success means every step ran once, in order; the HKDF context is destroyed once on every path; the create_key stream also makes the entropy / salt read fail.",
    note=COMMON_NOTE + "HMAC/SHA are parameters (OpenSSL tied only by the python oracle); strtol option syntax not modelled; the step from equal subkeys to credential acceptance is C02/C10 and is exercised here only by the thorough-tier two-daemon run.",
    technique="Lean 4 theorems (induction over expand rounds and read chunks) on a model regenerated from the C source + differential correspondence + python RFC 5869 oracle",
    ref="5/C20"),
@@ -83,7 +83,10 @@ CLAIMS = {
    technique="Lean 4 theorems (parse∘print = id chains, generic in the primitives) + kernels regenerated from source + byte-exact differential correspondence under ASan",
    ref="5/C01"),
  "C02": dict(
-   text="Proof. " + CRED_TXT + "Theorems (Props/C02.lean): a decode that discloses anything (success / expired / rewound / replayed) implies the credential parsed as OUTER||MAC||INNER, padding "
+   text="Proof. " + CRED_TXT + "Theorems: Props/C02Stages.lean on dec_validate_mac / dec_decrypt AS TRANSLATED from dec.c each run (every primitive call an event with the lengths it is given, its result an input): "
+        "the MAC stage returns 0 iff every MAC call succeeded, the digest length equals mac_len, the comparison over mac_len bytes reports equality and no earlier stage left an error; on that path the MAC is "
+        "keyed with the daemon key and fed exactly outer (outer_len) then inner (inner_len); a mismatch is EMUNGE_CRED_INVALID; a padding failure in dec_decrypt is recorded but deferred behind the MAC; "
+        "scratch buffers are sized inner_len + block and freed once on failure; the model's MAC stage accepts exactly when that kernel does. Props/C02.lean: a decode that discloses anything (success / expired / rewound / replayed) implies the credential parsed as OUTER||MAC||INNER, padding "
         "removal succeeded and MAC = mac(macKey, OUTER || decrypted still-compressed INNER) compared over the whole digest; a MAC mismatch or any parse failure before the MAC is a hard error whose "
         "message carries no payload, uid, gid, ttl, times (and leaves the replay state unchanged); under the NAMED hypothesis Unforgeable every accepted credential's MAC'd content was emitted by a "
         "key holder; under KeySeparation a credential MAC'd under another key is never accepted. Tie per run: ~3k byte-level edits (bit flips, every truncation, extensions, block swaps, splices, "
@@ -112,7 +115,7 @@ CLAIMS = {
    technique="Lean 4 theorems on the parsers' bounds logic + byte-exact differential correspondence under ASan/UBSan/LSan on hostile streams",
    ref="5/C08"),
  "C09": dict(
-   text="Proof. " + CRED_TXT + "Theorems (Props/C09.lean; also C06.soft_errors_keep_payload and C04.unauthorized_reply_is_reset on the translated orchestration): every decode that fails for a reason other "
+   text="Proof. " + CRED_TXT + "Theorems (Props/C09.lean; also C06.soft_errors_keep_payload and C04.unauthorized_reply_is_reset on the translated orchestration, and C02Stages.padding_failure_is_deferred / mac_mismatch_is_invalid / deferred_error_refuses on the translated dec_decrypt / dec_validate_mac): every decode that fails for a reason other "
         "than expired/rewound/replayed sends exactly errorOnlyRsp(retry, code, text) - payload length 0, ids at the ANY sentinel, cipher/MAC/zip/TTL/times/address zero, no realm/address/payload bytes; "
         "a failed encode likewise; for an encrypted credential a padding-removal failure and a MAC mismatch produce THE SAME reply bytes (EMUNGE_CRED_INVALID, default text) and the MAC is still "
         "computed on the padding-failure path. Tie per run: ~850 ops - control decodes and hard failures with full reply bytes vs the error-only form, every byte of the last cipher block flipped, "
@@ -123,7 +126,7 @@ CLAIMS = {
  "C10": dict(
    text="Proof. " + CRED_TXT + "SpecV3 (Model/SpecV3.lean) is written from doc/credential_v3_format.txt alone (own byte order, own base64, own layout). Theorems (Props/C10.lean): for every request/"
         "configuration/environment/primitive table the credential the daemon model emits equals SpecV3.emit of the resolved fields; every SpecV3 credential of well-formed fields is accepted by the "
-        "daemon model with the same field values; the streaming armor equals RFC 4648 on the concatenation. Tie per run: toy build byte-exact vs model; real build both ways against an independent "
+        "daemon model with the same field values; the streaming armor equals RFC 4648 on the concatenation; Props/C10Pack.lean on enc_pack_outer / enc_pack_inner AS TRANSLATED from enc.c each run: the stores tile the allocation exactly (no byte uninitialised or outside), in the documented field order, and outer_zip_ref is the zip byte. Tie per run: toy build byte-exact vs model; real build both ways against an independent "
         "python reference (hashlib/hmac/zlib/bz2 + openssl enc) over every supported cipher x MAC x zip; the suite's frozen credential; credentials emitted while each primitive call fails in turn must still be structurally v3 and decode.",
    note=COMMON_NOTE + "The python reference is support, not proof; PrimLaws for the real primitives is validated, not proved.",
    technique="Lean 4 refinement theorems between the daemon model and an independent format specification + byte-exact correspondence + two-way cross-check with a python reference",
